@@ -180,8 +180,26 @@ class Ctx:
         return quick if self.quick else thorough
 
 
+def _watchdog(limit):
+    """kill the whole process group if a check hangs (workers swallow SIGTERM)"""
+    import signal
+    import threading
+    try:
+        os.setpgrp()
+    except OSError:
+        pass
+
+    def fire():
+        print(f"HARNESS-ERROR: check exceeded {limit}s, killing process group", flush=True)
+        os.killpg(os.getpgrp(), signal.SIGKILL)
+    t = threading.Timer(limit, fire)
+    t.daemon = True
+    t.start()
+
+
 def run_check(pid, tier):
     t0 = time.time()
+    _watchdog(1500 if tier == "quick" else 6 * 3600)
     seed = common.seed_from_env()
     ctx = Ctx(pid, tier, seed)
     lines = []
